@@ -16,7 +16,8 @@ RULE = ('Hypothesis-generated SELECT cases over duplicate-heavy tables combining
         'computed only from engine outputs (sorted = stable sort of the unsorted output by the engine-evaluated keys, DESC = reverse of ASC, '
         'DISTINCT = first occurrences, DISTINCT COUNT = multiplicities, TOP n = prefix, TOP == LIMIT); (iii) unbounded input iterators with a '
         'pull budget equal to the reference bound. Non-trivial = a tie in the sort key, or a duplicate output record, or 0 < n < size of the '
-        'unbounded result (or, for the termination leg, a bound reached inside the endless tail); distinct = distinct case digests.')
+        'unbounded result (or, for the termination leg, a bound reached inside the endless tail); distinct = distinct case digests.'
+        ' Later additions: a termination leg for rbql-js (endless iterator in the node driver), numeric sort keys around zero, tuple keys of different lengths, sort + dedup + truncate over 2600 records.')
 ASSUMPTIONS = ['sort keys are totally ordered values of one type; DISTINCT records are hashable',
                'termination is decided by a bound on pulled records (BudgetExceeded), never by a clock',
                'the endless tail is constructed so that qualifying / distinct records keep arriving']
